@@ -1,6 +1,7 @@
 package harness
 
 import (
+	"fmt"
 	"sort"
 	"strings"
 
@@ -79,19 +80,38 @@ type Gen struct {
 	// evicting.
 	Soak string
 
-	templates map[string][]string // ecosystem -> range templates
-	words     map[string][]string // ecosystem -> alphabetic tokens seen in its versions
-	seps      map[string][]string // ecosystem -> separators its compound ranges use
+	templates map[string][]string            // ecosystem -> range templates
+	words     map[string][]string            // ecosystem -> alphabetic tokens seen in its versions
+	seps      map[string][]string            // ecosystem -> separators its compound ranges use
+	sigs      map[string][]string            // ecosystem -> operator shapes of its templates
+	bySig     map[string]map[string][]string // ecosystem -> shape -> templates
 }
+
+var errPanic = fmt.Errorf("panic")
 
 var compoundSeps = []string{" || ", "||", " | ", ", ", ",", " and ", " or ", " "}
 
 func (g *Gen) initTemplates() {
 	g.templates = map[string][]string{}
 	g.words = map[string][]string{}
+	g.sigs = map[string][]string{}
+	g.bySig = map[string]map[string][]string{}
 	for n, ec := range g.class {
-		g.templates[n] = templatesOf(ec.ranges)
+		tm := templatesOf(ec.ranges)
+		if e := EcoByName(n); e != nil {
+			tm = liveTemplates(e, tm, ec.versions)
+		}
+		g.templates[n] = tm
 		g.words[n] = wordsOf(ec.versions)
+		g.bySig[n] = map[string][]string{}
+		for _, t := range tm {
+			sg := templateSig(t)
+			if _, ok := g.bySig[n][sg]; !ok {
+				g.sigs[n] = append(g.sigs[n], sg)
+			}
+			g.bySig[n][sg] = append(g.bySig[n][sg], t)
+		}
+		sort.Strings(g.sigs[n])
 	}
 	g.seps = map[string][]string{}
 	for n, ec := range g.class {
